@@ -91,7 +91,7 @@ fn pipeline(bytes: &[u8], ab: &mut Aligned, obs: &mut u64, out_hash: &mut u64) -
                             h = h.rotate_left(1) ^ h64(&v[..]);
                             *obs += 1;
                         }
-                        for p in ["", "int", "zz"] {
+                        for p in ["", "int", "zz", "(", "(\u{e9}", "int,\u{1F600}", ")", ","] {
                             s.remap_frame(class, method, 0, None, Some(p), &mut v);
                             h = h.rotate_left(1) ^ h64(&v[..]);
                             *obs += 1;
@@ -337,11 +337,18 @@ pub fn run(tier: Tier) -> i32 {
         prop: "C13",
         tier,
         level: "model_checking",
-        rule: format!("(a) every string of <= {} tokens over 19 hostile tokens (numerals 0, 2^32-2, 2^32-1, 2^32, 2^64-1, 2^64, 30 digits; invalid UTF-8; Latin-1 'numeric' byte; empty names; empty sourceFile) as a mapping; (b) class line + 1 entry with all four numbers (and every combination of the optional originals) from 7 hostile numerals ({} entries), + all pairs of entries over a {}-numeral sub-alphabet; each through the whole pipeline (mapper with/without index, cache written to memory and parsed, class/method/frame queries with lines 0,1,3,5,6,2^32-1,2^32,2^64-2,2^64-1, by-params, text and typed trace, signatures); (d) every string of <= {} symbols over a 10-character descriptor alphabet as signature and over 15 trace tokens (multi-byte character, tab, NBSP, 'Caused by: ', 'Exception in thread \"', '\"', LF) as trace text / frame / throwable. Oracle: no panic (overflow checks compiled in), no Err. (e) every mapping of the scale family (classes of up to 129 entries, 301 classes, 100-deep inline groups, names up to 65537 bytes) and of the character-class family (105 special characters, sort pool, synthetic-file name shapes) through the pipeline with query names taken from the mapping; (f) signatures with 127..70000 array dimensions / parameters / name bytes and trace lines of 1.1 kB / 70 kB. Beyond the bound (not part of the exhaustive claim): scale family cause depth / frame count in {{64, 4096, 200000}} in a subprocess. distinct = distinct answer digests", tdepth, e_full.len(), small.len(), sdepth),
+        rule: format!("(a) every string of <= {} tokens over 19 hostile tokens (numerals 0, 2^32-2, 2^32-1, 2^32, 2^64-1, 2^64, 30 digits; invalid UTF-8; Latin-1 'numeric' byte; empty names; empty sourceFile) as a mapping; (b) class line + 1 entry with all four numbers (and every combination of the optional originals) from 7 hostile numerals ({} entries), + all pairs of entries over a {}-numeral sub-alphabet; each through the whole pipeline (mapper with/without index, cache written to memory and parsed, class/method/frame queries with lines 0,1,3,5,6,2^32-1,2^32,2^64-2,2^64-1, by-params with 8 parameter strings incl. unbalanced parentheses and multi-byte characters at either end, text and typed trace, signatures); (d) every string of <= {} symbols over a 10-character descriptor alphabet as signature and over 15 trace tokens (multi-byte character, tab, NBSP, 'Caused by: ', 'Exception in thread \"', '\"', LF) as trace text / frame / throwable. Oracle: no panic (overflow checks compiled in), no Err. (e) every mapping of the scale family (classes of up to 129 entries, 301 classes, 100-deep inline groups, names up to 65537 bytes) and of the character-class family (105 special characters, sort pool, synthetic-file name shapes) through the pipeline with query names taken from the mapping; (f) signatures with 127..70000 array dimensions / parameters / name bytes and trace lines of 1.1 kB / 70 kB. (g) the handle-history pass (props/hist.rs): 7 small mappings, every ordered pair x 28 last queries on the first handle x 28 first queries on a second handle created in the same memory, for cache and mapper. Beyond the bound (not part of the exhaustive claim): scale family cause depth / frame count in {{64, 4096, 200000}} in a subprocess. distinct = distinct answer digests", tdepth, e_full.len(), small.len(), sdepth),
         bounds: json!({"token_depth": tdepth, "tokens": H_TOKENS.iter().map(|t| esc(t)).collect::<Vec<_>>(), "hostile_numerals": H_NUMS.iter().map(|n| n.to_string()).collect::<Vec<_>>(), "string_depth": sdepth}),
         assumptions: vec!["overflow checks and debug assertions are compiled into the subject (release profile of pgmc)".into()],
         trusted_base: vec!["rustc/std".into(), "catch_unwind + panic hook for attribution".into()],
     };
+    let mut acc = acc;
+    {
+        // handle-history pass: handles parsed from recycled memory (props/hist.rs)
+        let mut h = Acc::new();
+        super::hist::reuse_history(&mut h);
+        acc.merge(h);
+    }
     finish(meta, acc, &budget, &|c| recheck(c))
 }
 
@@ -414,6 +421,9 @@ fn scale_family(acc: &mut Acc) {
 }
 
 pub fn recheck(case: &Value) -> Vec<String> {
+    if case["kind"] == "reuse-history" {
+        return super::hist::recheck(case);
+    }
     let mut acc = Acc::new();
     let mut ab = Aligned::new(&[]);
     match case["kind"].as_str().unwrap_or("") {
